@@ -867,6 +867,61 @@ def overlapping_server_disconnects(ctx, k):
         h.close()
 
 
+def empty_namespace_list(ctx, k):
+    """connect(namespaces=[]): the application asked for no namespace (a
+    list computed at run time that came out empty).  No CONNECT is sent, no
+    connect handler runs, and every emit raises BadNamespaceError."""
+    rng = ctx.case_rng(9 * 10 ** 7 + k)
+    kind = rng.choice(['sync', 'async'])
+    h = E.make_client(kind, client_kw={'reconnection': rng.random() < 0.5})
+    ran = []
+    style = rng.choice(['func', 'class', 'both'])
+    import socketio
+    for ns in ('/', '/a'):
+        if style in ('func', 'both'):
+            h.on('connect', (lambda ns: lambda: ran.append(ns))(ns), ns,
+                 False)
+        if style in ('class', 'both'):
+            base = socketio.AsyncClientNamespace if h.is_async else \
+                socketio.ClientNamespace
+            h.c.register_namespace(type('CN', (base,), {
+                'on_connect': (lambda ns: lambda self_: ran.append(ns))(ns)}
+            )(ns))
+    w = {'part': 'empty_namespace_list', 'case_index': k, 'kind': kind,
+         'style': style}
+    try:
+        try:
+            h.api('connect', 'http://host', namespaces=[], wait=False)
+        except Exception as e:
+            ctx.violation(None, 'connect(namespaces=[]) raised %r' % e, w)
+            return
+        frames = [p for p in h.sent if p['type'] == R.CONNECT]
+        out = []
+        for ns in ('/', '/a'):
+            try:
+                h.api('emit', 'x', 1, namespace=ns)
+                out.append('sent')
+            except Exception as e:
+                out.append(type(e).__name__)
+        ctx.count('connects_with_an_empty_namespace_list')
+        w.update(connect_frames=[p['nsp'] for p in frames],
+                 connect_handlers=ran, emits=out,
+                 namespaces=dict(h.c.namespaces))
+        if frames or ran or h.c.namespaces or \
+                out != ['BadNamespaceError'] * 2 or h.all_errors():
+            ctx.violation(None, 'connect(namespaces=[]) sent CONNECT for %r, '
+                          'ran connect handlers for %r; emits: %r' % (
+                              [p['nsp'] for p in frames], ran, out), w)
+        else:
+            ctx.case(('empty_namespace_list', kind, style), None)
+    finally:
+        try:
+            h.api('disconnect')
+        except Exception:
+            pass
+        h.close()
+
+
 def slow_connect_handler(ctx, k):
     """connect(wait=True) succeeds when the server has accepted every
     namespace - also when the application's connect handler of the last one
@@ -949,6 +1004,8 @@ def run_case(ctx, k):
         return slow_connect_handler(ctx, k)
     if k % 40 in (17, 18, 27, 28):
         return overlapping_server_disconnects(ctx, k)
+    if k % 40 in (33, 34):
+        return empty_namespace_list(ctx, k)
     rng = ctx.case_rng(k)
     h = History(ctx, rng, 'sync' if k % 2 == 0 else 'async', k)
     try:
@@ -977,6 +1034,7 @@ def run(ctx):
     ctx.require('mirror_checks', 200)
     ctx.require('successful_connects', 30)
     ctx.require('histories_with_lifecycle_handlers_under_catch_all', 5)
+    ctx.require('connects_with_an_empty_namespace_list', 5)
     ctx.require('reconnection_namespace_sets_checked', 5)
     ctx.require('failed_connects', 10)
     ctx.require('nowait_connects', 10)
@@ -1003,4 +1061,6 @@ def replay(ctx, w):
                                               w['witness']['case_index'])
     if w['witness'].get('part') == 'slow_connect_handler':
         return slow_connect_handler(ctx, w['witness']['case_index'])
+    if w['witness'].get('part') == 'empty_namespace_list':
+        return empty_namespace_list(ctx, w['witness']['case_index'])
     run_case(ctx, w['witness']['case_index'])
